@@ -580,4 +580,628 @@ theorem WriteResult_returns (ext : Ext) (g : GroupSet) (query : GQuery) (o : GOu
       · intro _; exact hfd g1 true
     · intro _; exact hfd g1 true
 
+/-! ### whatever fails, what was done is a prefix of what a run without failures does -/
+
+/-- the recorded operations without the removals of the temporary file (which follow a failed rename only) -/
+def clean (l : List GoFOp) : List GoFOp := l.filter fun op => match op with | .remove _ => false | _ => true
+
+/-- a stage that was to perform `full` ended with history `ops0 ++ pre`: `pre` (without removals) is a prefix of `full`, all of it
+    when the stage reports no error -/
+def Good (full ops0 : List GoFOp) (r : GroupSet × GoErr) : Prop :=
+  ∃ pre, r.1.ops = ops0 ++ pre ∧ clean pre <+: full ∧ (r.2 = none → clean pre = full)
+
+theorem goEffect_cases (ext : Ext) (h : List GoFOp) (op : GoFOp) :
+    goEffect ext h op = (h ++ [op], none) ∨ ∃ e, goEffect ext h op = (h, some e) := by
+  unfold goEffect
+  cases ext.ioErr h op with
+  | none => exact Or.inl rfl
+  | some e => exact Or.inr ⟨e, rfl⟩
+
+theorem clean_write (fd d : GoString) : clean [GoFOp.write fd d] = [GoFOp.write fd d] := rfl
+theorem clean_append (a b : List GoFOp) : clean (a ++ b) = clean a ++ clean b := by simp [clean]
+
+/-- a stage that did `x` (no removals) and then, from there, a stage for `rest`, is a stage for `x ++ rest` -/
+theorem Good.shift {x rest ops0 : List GoFOp} {r : GroupSet × GoErr} (hx : clean x = x) (h : Good rest (ops0 ++ x) r) :
+    Good (x ++ rest) ops0 r := by
+  obtain ⟨pre, h1, h2, h3⟩ := h
+  refine ⟨x ++ pre, by rw [h1, List.append_assoc], ?_, ?_⟩
+  · rw [clean_append, hx]; exact List.prefix_append_right_inj x |>.2 h2
+  · intro he; rw [clean_append, hx, h3 he]
+
+/-- a stage that stopped at once -/
+theorem Good.stop (full ops0 : List GoFOp) (g : GroupSet) (e : GoString) (hg : g.ops = ops0) : Good full ops0 (g, some e) :=
+  ⟨[], by simp [hg], by simp [clean], fun h => by cases h⟩
+
+theorem Good.done (ops0 : List GoFOp) (g : GroupSet) (e : GoErr) (hg : g.ops = ops0) : Good [] ops0 (g, e) :=
+  ⟨[], by simp [hg], by simp [clean], fun _ => rfl⟩
+
+/-- **the header loop under any failures** -/
+theorem header_any (ext : Ext) (query : GQuery) (fd : GoString) (last : Int) :
+    ∀ (l : List (Int × selectCondition)) (e0 : GoErr) (g : GroupSet),
+      Good (lineG fd last (l.map fun x => (x.1, x.2.FieldStorage)) ++ [GoFOp.write fd [10]]) g.ops
+        (goRange l (e0, g)
+          (fun (err, g) (i, sc) =>
+            let (_h1, _e1) := goEffect ext g.ops (GoFOp.write fd sc.FieldStorage)
+            let g := { g with ops := _h1 }
+            let _t2 := (GoLen.len sc.FieldStorage)
+            let _t3 := _e1
+            let err := _t3
+            if (err != none) then
+              LoopStep.ret (g, err)
+            else
+              if (i == last) then
+                LoopStep.next (err, g)
+              else
+                let (_h4, _e4) := goEffect ext g.ops (GoFOp.write fd ([44] : GoString))
+                let g := { g with ops := _h4 }
+                let _t5 := (GoLen.len ([44] : GoString))
+                let _t6 := _e4
+                let err := _t6
+                if (err != none) then
+                  LoopStep.ret (g, err)
+                else
+                  LoopStep.next (err, g))
+          (fun (err, g) =>
+            let (_h7, _e7) := goEffect ext g.ops (GoFOp.write fd ([10] : GoString))
+            let g := { g with ops := _h7 }
+            let _t8 := (GoLen.len ([10] : GoString))
+            let _t9 := _e7
+            let err := _t9
+            (g, err))) := by
+  intro l
+  induction l with
+  | nil =>
+    intro e0 g
+    simp only [goRange, List.map_nil, lineG, List.nil_append]
+    rcases goEffect_cases ext g.ops (GoFOp.write fd [10]) with h | ⟨e, h⟩
+    · simp only [h]
+      exact ⟨[GoFOp.write fd [10]], rfl, by simp [clean], fun _ => rfl⟩
+    · simp only [h]
+      exact Good.stop _ _ _ e rfl
+  | cons x rest ih =>
+    intro e0 g
+    obtain ⟨i, sc⟩ := x
+    rw [goRange_cons]
+    simp only [List.map_cons, lineG]
+    rcases goEffect_cases ext g.ops (GoFOp.write fd sc.FieldStorage) with h | ⟨e, h⟩
+    · simp only [h, none_bne, Bool.false_eq_true, if_false]
+      by_cases hl : (i == last) = true
+      · simp only [hl, if_true, List.nil_append]
+        have := ih none { g with ops := g.ops ++ [GoFOp.write fd sc.FieldStorage] }
+        exact Good.shift (x := [GoFOp.write fd sc.FieldStorage]) rfl this
+      · simp only [hl, Bool.false_eq_true, if_false]
+        rcases goEffect_cases ext (g.ops ++ [GoFOp.write fd sc.FieldStorage]) (GoFOp.write fd [44]) with h2 | ⟨e2, h2⟩
+        · simp only [h2, none_bne, Bool.false_eq_true, if_false]
+          have := ih none { g with ops := g.ops ++ [GoFOp.write fd sc.FieldStorage] ++ [GoFOp.write fd [44]] }
+          have hs := Good.shift (x := [GoFOp.write fd sc.FieldStorage, GoFOp.write fd [44]]) rfl
+            (by simpa [List.append_assoc] using this)
+          simpa [List.append_assoc] using hs
+        · have hne : ((some e2 : GoErr) != none) = true := rfl
+          simp only [h2, hne, if_true]
+          refine ⟨[GoFOp.write fd sc.FieldStorage], rfl, ?_, fun he => by cases he⟩
+          simp [clean]
+    · have hne : ((some e : GoErr) != none) = true := rfl
+      simp only [h, hne, if_true]
+      exact Good.stop _ _ _ e rfl
+
+abbrev OStep := LoopStep (Outcome (GroupSet × GoErr)) GroupSet
+
+/-- what one row's inner loop may hand to the loop over the rows: go on with the whole line written, or leave the function
+    with an error and a prefix of the line written -/
+def InnerGood (fullLine ops0 : List GoFOp) : OStep → Prop
+  | .next g' => g'.ops = ops0 ++ fullLine
+  | .ret (.ok (g', some _)) => ∃ pre, g'.ops = ops0 ++ pre ∧ pre <+: fullLine
+  | _ => False
+
+theorem InnerGood.shift {x rest ops0 : List GoFOp} {s : OStep} (h : InnerGood rest (ops0 ++ x) s) : InnerGood (x ++ rest) ops0 s := by
+  cases s with
+  | next g' => simpa [InnerGood, List.append_assoc] using h
+  | brk g' => exact h
+  | ret r =>
+    cases r with
+    | ok v =>
+      obtain ⟨g', e⟩ := v
+      cases e with
+      | none => exact h
+      | some m =>
+        obtain ⟨pre, h1, h2⟩ := h
+        exact ⟨x ++ pre, by rw [h1, List.append_assoc], (List.prefix_append_right_inj x).2 h2⟩
+    | panic m => exact h
+    | err m => exact h
+
+/-- **one row under any failures** -/
+theorem inner_any (ext : Ext) (fd : GoString) (last : Int) :
+    ∀ (vals : List (Int × GoString)) (g : GroupSet),
+      InnerGood (lineG fd last vals ++ [GoFOp.write fd [10]]) g.ops
+        (goRange vals g
+          (fun g (y : Int × GoString) =>
+            let (_h3, _e3) := goEffect ext g.ops (GoFOp.write fd y.2)
+            let g := { g with ops := _h3 }
+            let _t4 := (GoLen.len y.2)
+            let _t5 := _e3
+            let _u6 := _t4
+            let err := _t5
+            if (err != none) then
+              LoopStep.ret (LoopStep.ret (Outcome.ok (g, err)))
+            else
+              if (y.1 == last) then
+                LoopStep.next g
+              else
+                let (_h7, _e7) := goEffect ext g.ops (GoFOp.write fd ([44] : GoString))
+                let g := { g with ops := _h7 }
+                let _t8 := (GoLen.len ([44] : GoString))
+                let _t9 := _e7
+                let _u10 := _t8
+                let err := _t9
+                if (err != none) then
+                  LoopStep.ret (LoopStep.ret (Outcome.ok (g, err)))
+                else
+                  LoopStep.next g)
+          (fun g =>
+            let (_h11, _e11) := goEffect ext g.ops (GoFOp.write fd ([10] : GoString))
+            let g := { g with ops := _h11 }
+            let _t12 := (GoLen.len ([10] : GoString))
+            let _t13 := _e11
+            let _u14 := _t12
+            let err := _t13
+            if (err != none) then
+              (LoopStep.ret (Outcome.ok (g, err)) : OStep)
+            else
+              LoopStep.next g)) := by
+  intro vals
+  induction vals with
+  | nil =>
+    intro g
+    simp only [goRange, lineG, List.nil_append]
+    rcases goEffect_cases ext g.ops (GoFOp.write fd [10]) with h | ⟨e, h⟩
+    · simp only [h, none_bne, Bool.false_eq_true, if_false]; rfl
+    · have hne : ((some e : GoErr) != none) = true := rfl
+      simp only [h, hne, if_true]
+      exact ⟨[], by simp, List.nil_prefix⟩
+  | cons y rest ih =>
+    intro g
+    obtain ⟨j, v⟩ := y
+    rw [goRange_cons]
+    simp only [lineG]
+    rcases goEffect_cases ext g.ops (GoFOp.write fd v) with h | ⟨e, h⟩
+    · simp only [h, none_bne, Bool.false_eq_true, if_false]
+      by_cases hl : (j == last) = true
+      · simp only [hl, if_true, List.nil_append]
+        have := ih { g with ops := g.ops ++ [GoFOp.write fd v] }
+        exact InnerGood.shift (x := [GoFOp.write fd v]) this
+      · simp only [hl, Bool.false_eq_true, if_false]
+        rcases goEffect_cases ext (g.ops ++ [GoFOp.write fd v]) (GoFOp.write fd [44]) with h2 | ⟨e2, h2⟩
+        · simp only [h2, none_bne, Bool.false_eq_true, if_false]
+          have := ih { g with ops := g.ops ++ [GoFOp.write fd v] ++ [GoFOp.write fd [44]] }
+          have hs := InnerGood.shift (x := [GoFOp.write fd v, GoFOp.write fd [44]]) (by simpa [List.append_assoc] using this)
+          simpa [List.append_assoc] using hs
+        · have hne : ((some e2 : GoErr) != none) = true := rfl
+          simp only [h2, hne, if_true]
+          exact ⟨[GoFOp.write fd v], rfl, by simp⟩
+    · have hne : ((some e : GoErr) != none) = true := rfl
+      simp only [h, hne, if_true]
+      exact ⟨[], by simp, List.nil_prefix⟩
+
+/-- a stage on an `Outcome` -/
+def GoodO (full ops0 : List GoFOp) (o : Outcome (GroupSet × GoErr)) : Prop := ∃ r, o = Outcome.ok r ∧ Good full ops0 r
+
+theorem GoodO.shift {x rest ops0 : List GoFOp} {o : Outcome (GroupSet × GoErr)} (hx : clean x = x) (h : GoodO rest (ops0 ++ x) o) :
+    GoodO (x ++ rest) ops0 o := by
+  obtain ⟨r, h1, h2⟩ := h
+  exact ⟨r, h1, Good.shift hx h2⟩
+
+/-- the rows the loop writes: up to the one whose index is the limit -/
+def rowsFull (fd : GoString) (last limit : Int) : List (Int × GRow) → List GoFOp
+  | [] => []
+  | x :: rest => if x.1 == limit then [] else (lineG fd last (goEnum x.2.values) ++ [GoFOp.write fd [10]]) ++ rowsFull fd last limit rest
+
+theorem rowsFull_eq (fd : GoString) (last limit : Int) (l : List (Int × GRow)) :
+    rowsFull fd last limit l
+      = (l.takeWhile (fun x => !(x.1 == limit))).flatMap fun x => lineG fd last (goEnum x.2.values) ++ [GoFOp.write fd [10]] := by
+  induction l with
+  | nil => rfl
+  | cons x rest ih =>
+    unfold rowsFull
+    by_cases h : (x.1 == limit) = true
+    · simp [h]
+    · simp only [h, Bool.false_eq_true, if_false, List.takeWhile_cons, Bool.not_false, if_true, List.flatMap_cons]
+      have h' : (x.1 == limit) = false := by simpa using h
+      simp only [h', Bool.not_false, if_true, List.flatMap_cons, ih]
+
+/-- the end of `resultWriteUnformatted`: the rename of the temporary file, and its removal when that fails -/
+def renameFull (o : GOutfile) (final : Bool) : List GoFOp :=
+  if (!o.AppendMode && final) then [GoFOp.rename (o.FilePath ++ TMP) o.FilePath] else []
+
+theorem clean_lineG (fd : GoString) (last : Int) (l : List (Int × GoString)) : clean (lineG fd last l) = lineG fd last l := by
+  induction l with
+  | nil => rfl
+  | cons x rest ih =>
+    obtain ⟨j, v⟩ := x
+    simp only [lineG]
+    by_cases h : (j == last) = true
+    · simp only [h, if_true, List.nil_append]
+      show clean ([GoFOp.write fd v] ++ lineG fd last rest) = _
+      rw [clean_append, ih]; rfl
+    · simp only [h, Bool.false_eq_true, if_false]
+      show clean ([GoFOp.write fd v, GoFOp.write fd [44]] ++ lineG fd last rest) = _
+      rw [clean_append, ih]; rfl
+
+/-- **the loop over the rows and the rename, under any failures** -/
+theorem rows_any (ext : Ext) (query : GQuery) (o : GOutfile) (fd : GoString) (final : Bool) :
+    ∀ (l : List (Int × GRow)) (g : GroupSet),
+      GoodO (rowsFull fd (GoLen.len query.Select - 1) query.Limit l ++ renameFull o final) g.ops
+        (goRange l g
+          (fun g (x : Int × GRow) =>
+            if (x.1 == query.Limit) then
+              (LoopStep.brk g : OStep)
+            else
+              goRange (goEnum x.2.values) g
+                (fun g (y : Int × GoString) =>
+                  let (_h3, _e3) := goEffect ext g.ops (GoFOp.write fd y.2)
+                  let g := { g with ops := _h3 }
+                  let _t4 := (GoLen.len y.2)
+                  let _t5 := _e3
+                  let _u6 := _t4
+                  let err := _t5
+                  if (err != none) then
+                    LoopStep.ret (LoopStep.ret (Outcome.ok (g, err)))
+                  else
+                    if (y.1 == (GoLen.len query.Select - 1)) then
+                      LoopStep.next g
+                    else
+                      let (_h7, _e7) := goEffect ext g.ops (GoFOp.write fd ([44] : GoString))
+                      let g := { g with ops := _h7 }
+                      let _t8 := (GoLen.len ([44] : GoString))
+                      let _t9 := _e7
+                      let _u10 := _t8
+                      let err := _t9
+                      if (err != none) then
+                        LoopStep.ret (LoopStep.ret (Outcome.ok (g, err)))
+                      else
+                        LoopStep.next g)
+                (fun g =>
+                  let (_h11, _e11) := goEffect ext g.ops (GoFOp.write fd ([10] : GoString))
+                  let g := { g with ops := _h11 }
+                  let _t12 := (GoLen.len ([10] : GoString))
+                  let _t13 := _e11
+                  let _u14 := _t12
+                  let err := _t13
+                  if (err != none) then
+                    (LoopStep.ret (Outcome.ok (g, err)) : OStep)
+                  else
+                    LoopStep.next g))
+          (fun g =>
+            if ((!(goDeref (some o)).AppendMode) && final) then
+              let tmpOutfile := ((goDeref (some o)).FilePath ++ ([46, 116, 109, 112] : GoString))
+              let (_h15, _e15) := goEffect ext g.ops (GoFOp.rename tmpOutfile (goDeref (some o)).FilePath)
+              let g := { g with ops := _h15 }
+              let _t16 := _e15
+              let err := _t16
+              if (err != none) then
+                let (_h17, _e17) := goEffect ext g.ops (GoFOp.remove tmpOutfile)
+                let g := { g with ops := _h17 }
+                (Outcome.ok (g, err))
+              else
+                (Outcome.ok (g, none))
+            else
+              (Outcome.ok (g, none)))) := by
+  -- the tail
+  have htail : ∀ g : GroupSet, GoodO (renameFull o final) g.ops
+      (if ((!(goDeref (some o)).AppendMode) && final) then
+        let tmpOutfile := ((goDeref (some o)).FilePath ++ ([46, 116, 109, 112] : GoString))
+        let (_h15, _e15) := goEffect ext g.ops (GoFOp.rename tmpOutfile (goDeref (some o)).FilePath)
+        let g := { g with ops := _h15 }
+        let _t16 := _e15
+        let err := _t16
+        if (err != none) then
+          let (_h17, _e17) := goEffect ext g.ops (GoFOp.remove tmpOutfile)
+          let g := { g with ops := _h17 }
+          (Outcome.ok (g, err))
+        else
+          (Outcome.ok (g, none))
+      else
+        (Outcome.ok (g, none))) := by
+    intro g
+    have hd : (goDeref (some o) : GOutfile) = o := rfl
+    unfold renameFull
+    simp only [hd]
+    cases hc : (!o.AppendMode && final)
+    · simp only [Bool.false_eq_true, if_false]
+      exact ⟨_, rfl, Good.done _ _ _ rfl⟩
+    · simp only [if_true]
+      have htmp : (o.FilePath ++ ([46, 116, 109, 112] : GoString)) = o.FilePath ++ TMP := rfl
+      rcases goEffect_cases ext g.ops (GoFOp.rename (o.FilePath ++ TMP) o.FilePath) with h | ⟨e, h⟩
+      · simp only [htmp, h, none_bne, Bool.false_eq_true, if_false]
+        exact ⟨_, rfl, [GoFOp.rename (o.FilePath ++ TMP) o.FilePath], rfl, by simp [clean], fun _ => rfl⟩
+      · have hne : ((some e : GoErr) != none) = true := rfl
+        simp only [htmp, h, hne, if_true]
+        rcases goEffect_cases ext g.ops (GoFOp.remove (o.FilePath ++ TMP)) with h2 | ⟨e2, h2⟩
+        · simp only [h2]
+          exact ⟨_, rfl, [GoFOp.remove (o.FilePath ++ TMP)], rfl, by simp [clean], fun he => by cases he⟩
+        · simp only [h2]
+          exact ⟨_, rfl, Good.stop _ _ _ e rfl⟩
+  intro l
+  induction l with
+  | nil => intro g; simp only [goRange, rowsFull, List.nil_append]; exact htail g
+  | cons x rest ih =>
+    intro g
+    rw [goRange_cons]
+    unfold rowsFull
+    by_cases hl : (x.1 == query.Limit) = true
+    · simp only [hl, if_true, List.nil_append]
+      exact htail g
+    · simp only [hl, Bool.false_eq_true, if_false]
+      have hin := inner_any ext fd (GoLen.len query.Select - 1) (goEnum x.2.values) g
+      generalize hgs : goRange (goEnum x.2.values) g _ _ = st at hin
+      cases st with
+      | next g' =>
+        simp only [InnerGood] at hin
+        simp only []
+        have := ih g'
+        rw [hin] at this
+        rw [List.append_assoc]
+        exact GoodO.shift (by rw [clean_append, clean_lineG]; rfl) this
+      | brk g' => exact absurd hin (by simp [InnerGood])
+      | ret r =>
+        cases r with
+        | ok v =>
+          obtain ⟨g', e⟩ := v
+          cases e with
+          | none => exact absurd hin (by simp [InnerGood])
+          | some m =>
+            obtain ⟨pre, h1, h2⟩ := hin
+            simp only []
+            refine ⟨_, rfl, pre, h1, ?_, fun he => by cases he⟩
+            have hL : clean (lineG fd (GoLen.len query.Select - 1) (goEnum x.2.values) ++ [GoFOp.write fd [10]])
+                = lineG fd (GoLen.len query.Select - 1) (goEnum x.2.values) ++ [GoFOp.write fd [10]] := by
+              rw [clean_append, clean_lineG]; rfl
+            have hall := List.filter_eq_self.1 hL
+            have hcl : clean pre = pre := List.filter_eq_self.2 (fun a ha => hall a (h2.subset ha))
+            rw [hcl]
+            exact h2.trans (by rw [List.append_assoc]; exact List.prefix_append _ _)
+        | panic m => exact absurd hin (by simp [InnerGood])
+        | err m => exact absurd hin (by simp [InnerGood])
+
+/-- `rwuOps` with the rows written as `rowsFull` -/
+theorem rwuOps_eq (query : GQuery) (o : GOutfile) (rows : List GRow) (fd : GoString) (wh final : Bool) :
+    rwuOps query o rows fd wh final =
+      (if wh then lineG fd (GoLen.len query.Select - 1) ((goEnum query.Select).map fun x => (x.1, x.2.FieldStorage)) ++ [GoFOp.write fd [10]] else [])
+      ++ (rowsFull fd (GoLen.len query.Select - 1) query.Limit (goEnum rows) ++ renameFull o final) := by
+  unfold rwuOps rowsUpTo renameFull
+  rw [rowsFull_eq]
+  simp only [List.append_assoc]
+
+theorem header_fn_any (ext : Ext) (g : GroupSet) (query : GQuery) (fd : GoString) (last : Int) :
+    Good (lineG fd last ((goEnum query.Select).map fun x => (x.1, x.2.FieldStorage)) ++ [GoFOp.write fd [10]]) g.ops
+      (GroupSet.resultWriteUnformattedHeader ext g query fd last) := by
+  unfold GroupSet.resultWriteUnformattedHeader
+  exact header_any ext query fd last (goEnum query.Select) (GoZero.zero : GoErr) g
+
+/-- **`resultWriteUnformatted` under any failures**: what it did is a prefix of what it does when nothing fails -/
+theorem rwu_any (ext : Ext) (g : GroupSet) (query : GQuery) (o : GOutfile) (ho : query.Outfile = some o)
+    (rows : List GRow) (fd : GoString) (wh final : Bool) :
+    GoodO (rwuOps query o rows fd wh final) g.ops (GroupSet.resultWriteUnformatted ext g query rows fd wh final) := by
+  rw [rwuOps_eq]
+  unfold GroupSet.resultWriteUnformatted
+  simp only [ho, Option.isSome_some, if_true]
+  cases wh
+  · simp only [Bool.false_eq_true, if_false, List.nil_append]
+    exact rows_any ext query o fd final (goEnum rows) g
+  · simp only [if_true]
+    obtain ⟨pre, h1, h2, h3⟩ := header_fn_any ext g query fd (GoLen.len query.Select - 1)
+    rcases hres : GroupSet.resultWriteUnformattedHeader ext g query fd (GoLen.len query.Select - 1) with ⟨g1, e1⟩
+    rw [hres] at h1 h3
+    simp only at h1 h3
+    cases e1 with
+    | some m =>
+      have hne : ((some m : GoErr) != none) = true := rfl
+      simp only [hne, if_true]
+      exact ⟨_, rfl, pre, h1, h2.trans (List.prefix_append _ _), fun he => by cases he⟩
+    | none =>
+      simp only [none_bne, Bool.false_eq_true, if_false]
+      have hfull := h3 rfl
+      have hr := rows_any ext query o fd final (goEnum rows) g1
+      rw [h1] at hr
+      obtain ⟨r, hr1, pre2, hp1, hp2, hp3⟩ := hr
+      refine ⟨r, hr1, pre ++ pre2, by rw [hp1, List.append_assoc], ?_, ?_⟩
+      · rw [clean_append, hfull]; exact (List.prefix_append_right_inj _).2 hp2
+      · intro he; rw [clean_append, hfull, hp3 he]
+
+theorem writeQueryFile_any (ext : Ext) (g : GroupSet) (query : GQuery) (o : GOutfile) (ho : query.Outfile = some o) :
+    GoodO [GoFOp.open (o.FilePath ++ QUERYEXT ++ TMP) .trunc, .write (o.FilePath ++ QUERYEXT ++ TMP) query.RawQuery,
+        .rename (o.FilePath ++ QUERYEXT ++ TMP) (o.FilePath ++ QUERYEXT)] g.ops
+      (GroupSet.writeQueryFile ext g query) := by
+  unfold GroupSet.writeQueryFile
+  have hd : (goDeref (some o) : GOutfile) = o := rfl
+  have hq2 : (o.FilePath ++ lit_0) = o.FilePath ++ QUERYEXT := rfl
+  have hq : (o.FilePath ++ QUERYEXT ++ ([46, 116, 109, 112] : GoString)) = o.FilePath ++ QUERYEXT ++ TMP := rfl
+  simp only [ho, Option.isSome_some, if_true, hd, hq2, hq]
+  rcases goEffect_cases ext g.ops (GoFOp.open (o.FilePath ++ QUERYEXT ++ TMP) .trunc) with h | ⟨e, h⟩
+  · simp only [h, none_bne, Bool.false_eq_true, if_false]
+    rcases goEffect_cases ext (g.ops ++ [GoFOp.open (o.FilePath ++ QUERYEXT ++ TMP) .trunc])
+        (GoFOp.write (o.FilePath ++ QUERYEXT ++ TMP) query.RawQuery) with h2 | ⟨e2, h2⟩
+    · simp only [h2, none_bne, Bool.false_eq_true, if_false]
+      rcases goEffect_cases ext (g.ops ++ [GoFOp.open (o.FilePath ++ QUERYEXT ++ TMP) .trunc] ++ [GoFOp.write (o.FilePath ++ QUERYEXT ++ TMP) query.RawQuery])
+          (GoFOp.rename (o.FilePath ++ QUERYEXT ++ TMP) (o.FilePath ++ QUERYEXT)) with h3 | ⟨e3, h3⟩
+      · simp only [h3]
+        exact ⟨_, rfl, [GoFOp.open (o.FilePath ++ QUERYEXT ++ TMP) .trunc, .write (o.FilePath ++ QUERYEXT ++ TMP) query.RawQuery,
+          .rename (o.FilePath ++ QUERYEXT ++ TMP) (o.FilePath ++ QUERYEXT)], by simp [List.append_assoc], by simp [clean], fun _ => by simp [clean]⟩
+      · simp only [h3]
+        exact ⟨_, rfl, [GoFOp.open (o.FilePath ++ QUERYEXT ++ TMP) .trunc, .write (o.FilePath ++ QUERYEXT ++ TMP) query.RawQuery],
+          by simp [List.append_assoc], by simp [clean], fun he => by cases he⟩
+    · have hne : ((some e2 : GoErr) != none) = true := rfl
+      simp only [h2, hne, if_true]
+      exact ⟨_, rfl, [GoFOp.open (o.FilePath ++ QUERYEXT ++ TMP) .trunc], rfl, by simp [clean], fun he => by cases he⟩
+  · have hne : ((some e : GoErr) != none) = true := rfl
+    simp only [h, hne, if_true]
+    exact ⟨_, rfl, Good.stop _ _ _ e rfl⟩
+
+/-- `getOutfileFD` under any failures: the open, or nothing; without an error the descriptor is the target -/
+theorem getOutfileFD_any (ext : Ext) (g : GroupSet) (query : GQuery) (o : GOutfile) (ho : query.Outfile = some o) :
+    ∃ g' fd e, GroupSet.getOutfileFD ext g query = Outcome.ok (g', fd, e) ∧
+      Good (if o.AppendMode then [GoFOp.open o.FilePath .append] else [GoFOp.open (o.FilePath ++ TMP) .trunc]) g.ops (g', e) ∧
+      (e = none → fd = if o.AppendMode then o.FilePath else o.FilePath ++ TMP) := by
+  unfold GroupSet.getOutfileFD
+  have hd : (goDeref (some o) : GOutfile) = o := rfl
+  have htmp : (o.FilePath ++ ([46, 116, 109, 112] : GoString)) = o.FilePath ++ TMP := rfl
+  simp only [ho, Option.isSome_some, if_true, hd, htmp]
+  cases ha : o.AppendMode
+  · simp only [Bool.not_false, if_true, Bool.false_eq_true, if_false]
+    rcases goEffect_cases ext g.ops (GoFOp.open (o.FilePath ++ TMP) .trunc) with h | ⟨e, h⟩
+    · simp only [h]
+      exact ⟨_, _, _, rfl, ⟨[GoFOp.open (o.FilePath ++ TMP) .trunc], rfl, by simp [clean], fun _ => by simp [clean]⟩, fun _ => rfl⟩
+    · simp only [h]
+      exact ⟨_, _, _, rfl, Good.stop _ _ _ e rfl, fun he => by cases he⟩
+  · simp only [Bool.not_true, Bool.false_eq_true, if_false, if_true]
+    rcases goEffect_cases ext g.ops (GoFOp.open o.FilePath .append) with h | ⟨e, h⟩
+    · simp only [h]
+      exact ⟨_, _, _, rfl, ⟨[GoFOp.open o.FilePath .append], rfl, by simp [clean], fun _ => by simp [clean]⟩, fun _ => rfl⟩
+    · simp only [h]
+      exact ⟨_, _, _, rfl, Good.stop _ _ _ e rfl, fun he => by cases he⟩
+
+/-- the operations of a `WriteResult` in which nothing fails, in the translation's own terms (`WriteResult_ok`) -/
+def fullG (ext : Ext) (query : GQuery) (o : GOutfile) (final : Bool) : List GoFOp :=
+  [GoFOp.open (o.FilePath ++ QUERYEXT ++ TMP) .trunc, .write (o.FilePath ++ QUERYEXT ++ TMP) query.RawQuery,
+    .rename (o.FilePath ++ QUERYEXT ++ TMP) (o.FilePath ++ QUERYEXT)]
+  ++ (if o.AppendMode then [GoFOp.open o.FilePath .append] else [GoFOp.open (o.FilePath ++ TMP) .trunc])
+  ++ rwuOps query o (rowsOf ext) (if o.AppendMode then o.FilePath else o.FilePath ++ TMP) (headerG ext o) final
+
+theorem GoodO.seq {a b ops0 : List GoFOp} {g1 : GroupSet} {o : Outcome (GroupSet × GoErr)} {pre : List GoFOp}
+    (h1 : g1.ops = ops0 ++ pre) (hfull : clean pre = a) (h2 : GoodO b g1.ops o) : GoodO (a ++ b) ops0 o := by
+  obtain ⟨r, hr, pre2, hp1, hp2, hp3⟩ := h2
+  refine ⟨r, hr, pre ++ pre2, by rw [hp1, h1, List.append_assoc], ?_, ?_⟩
+  · rw [clean_append, hfull]; exact (List.prefix_append_right_inj _).2 hp2
+  · intro he; rw [clean_append, hfull, hp3 he]
+
+/-- **the translated `WriteResult` under any failures**: whatever `ext.ioErr` makes fail, the function returns, and what it has
+    done (the removal of the temporary file after a failed rename aside) is a prefix of what it does when nothing fails — all
+    of it when it reports no error -/
+theorem WriteResult_any (ext : Ext) (g : GroupSet) (query : GQuery) (o : GOutfile) (ho : query.Outfile = some o) (final : Bool) :
+    GoodO (fullG ext query o final) g.ops (GroupSet.WriteResult ext g query final) := by
+  unfold GroupSet.WriteResult Query.HasOutfile fullG
+  have hne : (query.Outfile != none) = true := by rw [ho]; rfl
+  simp only [hne, Bool.not_true, Bool.false_eq_true, if_false]
+  obtain ⟨⟨g1, e1⟩, h1, pre1, hp1, hp2, hp3⟩ := writeQueryFile_any ext g query o ho
+  rw [h1]
+  simp only at hp1 hp3 ⊢
+  cases e1 with
+  | some m =>
+    have hn : ((some m : GoErr) != none) = true := rfl
+    simp only [hn, if_true]
+    exact ⟨_, rfl, pre1, hp1, hp2.trans (by rw [List.append_assoc]; exact List.prefix_append _ _), fun he => by cases he⟩
+  | none =>
+    simp only [none_bne, Bool.false_eq_true, if_false]
+    rw [List.append_assoc]
+    apply GoodO.seq hp1 (hp3 rfl)
+    -- the rest: open the outfile, write
+    have hrest : ∀ (wh : Bool), GoodO
+        ((if o.AppendMode then [GoFOp.open o.FilePath .append] else [GoFOp.open (o.FilePath ++ TMP) .trunc]) ++
+          rwuOps query o (rowsOf ext) (if o.AppendMode then o.FilePath else o.FilePath ++ TMP) wh final) g1.ops
+        (match GroupSet.getOutfileFD ext g1 query with
+          | Outcome.ok _o11 =>
+            let (_r12, _t13, _t14) := _o11
+            let g := _r12
+            let fd := _t13
+            let err := _t14
+            if (err != none) then
+              (Outcome.ok (g, err))
+            else
+              match GroupSet.resultWriteUnformatted ext g query (List.map (fun v => ({ values := v } : result)) ext.rowValues) fd wh final with
+              | Outcome.ok _o16 =>
+                let (_r17, _t18) := _o16
+                let g := _r17
+                let ret_15 := _t18
+                (Outcome.ok (g, ret_15))
+              | _ =>
+                (Outcome.panic "panic in GroupSet.resultWriteUnformatted")
+          | _ =>
+            (Outcome.panic "panic in GroupSet.getOutfileFD")) := by
+      intro wh
+      obtain ⟨g2, fd, e2, h2, ⟨pre2, hq1, hq2, hq3⟩, hfd⟩ := getOutfileFD_any ext g1 query o ho
+      rw [h2]
+      simp only at hq1 hq3 ⊢
+      cases e2 with
+      | some m =>
+        have hn : ((some m : GoErr) != none) = true := rfl
+        simp only [hn, if_true]
+        exact ⟨_, rfl, pre2, hq1, hq2.trans (List.prefix_append _ _), fun he => by cases he⟩
+      | none =>
+        simp only [none_bne, Bool.false_eq_true, if_false]
+        have hfd' := hfd rfl
+        subst hfd'
+        apply GoodO.seq hq1 (hq3 rfl)
+        obtain ⟨r, hr, hg⟩ := rwu_any ext g2 query o ho (rowsOf ext) (if o.AppendMode then o.FilePath else o.FilePath ++ TMP) wh final
+        have hr' : GroupSet.resultWriteUnformatted ext g2 query (List.map (fun v => ({ values := v } : result)) ext.rowValues)
+            (if o.AppendMode then o.FilePath else o.FilePath ++ TMP) wh final = Outcome.ok r := hr
+        rw [hr']
+        exact ⟨r, rfl, hg⟩
+    unfold headerG
+    have hd : (goDeref (some o) : GOutfile) = o := rfl
+    simp only [ho, Option.isSome_some, if_true, hd]
+    cases ha : o.AppendMode
+    · simp only [Bool.false_eq_true, if_false, Bool.false_and, Bool.not_false]
+      have := hrest true
+      rw [ha] at this
+      simp only [Bool.false_eq_true, if_false] at this
+      exact this
+    · simp only [if_true, Bool.true_and]
+      cases hs : ((ext.osStat o.FilePath).2 == none && decide ((ext.osStat o.FilePath).1.size > 0))
+      · simp only [hs, Bool.false_eq_true, if_false, Bool.not_false]
+        have := hrest true
+        rw [ha] at this
+        simp only [if_true] at this
+        exact this
+      · simp only [hs, if_true, Bool.not_true]
+        have := hrest false
+        rw [ha] at this
+        simp only [if_true] at this
+        exact this
+
+/-- the environment in which no file operation fails, everything else as in `ext` -/
+def quiet (ext : Ext) : Ext := { ext with ioErr := fun _ _ => none }
+
+theorem quiet_noErr (ext : Ext) : NoIOErr (quiet ext) := fun _ _ => rfl
+
+/-- `fullG` is the model's operation list (the failures `ext` decides play no part in it) -/
+theorem full_is_model (ext : Ext) (fs : FS) (hstat : StatAgrees ext fs) (query : GQuery) (o : GOutfile)
+    (ho : query.Outfile = some o) (final : Bool) (hrows : ∀ row ∈ ext.rowValues, row.length = query.Select.length) :
+    fullG ext query o final = (writeResultOps fs (reqOf ext query o final)).map ofFOp := by
+  have h1 := WriteResult_ok (quiet ext) (quiet_noErr ext) {} query o ho final
+  have h2 := WriteResult_refines (quiet ext) (quiet_noErr ext) fs hstat {} query o ho final hrows
+  rw [h1] at h2
+  have h3 := congrArg (fun r => match r with | Outcome.ok (g, _) => g.ops | _ => []) h2
+  simp only [List.append_cancel_left_eq] at h3
+  exact h3
+
+theorem filterMap_clean (l : List GoFOp) : (clean l).filterMap toFOp = l.filterMap toFOp := by
+  induction l with
+  | nil => rfl
+  | cons x xs ih =>
+    cases x with
+    | remove p => show (clean xs).filterMap toFOp = _; rw [ih]; rfl
+    | «open» p m => show (GoFOp.open p m :: clean xs).filterMap toFOp = _; rw [List.filterMap_cons, List.filterMap_cons, ih]
+    | write p d => show (GoFOp.write p d :: clean xs).filterMap toFOp = _; rw [List.filterMap_cons, List.filterMap_cons, ih]
+    | rename a b => show (GoFOp.rename a b :: clean xs).filterMap toFOp = _; rw [List.filterMap_cons, List.filterMap_cons, ih]
+
+theorem filterMap_of (l : List FOp) : (l.map ofFOp).filterMap toFOp = l := by
+  rw [List.filterMap_map]
+  have : (toFOp ∘ ofFOp) = some := by funext x; exact toFOp_ofFOp x
+  rw [this, List.filterMap_some]
+
+/-- **the translated `WriteResult` under any failures, in the model's terms**: the model operations among what was done
+    are a prefix of `writeResultOps` — all of it when no error is reported -/
+theorem WriteResult_any_model (ext : Ext) (fs : FS) (hstat : StatAgrees ext fs) (g : GroupSet) (query : GQuery) (o : GOutfile)
+    (ho : query.Outfile = some o) (final : Bool) (hrows : ∀ row ∈ ext.rowValues, row.length = query.Select.length) :
+    ∃ g' e pre, GroupSet.WriteResult ext g query final = Outcome.ok (g', e) ∧ g'.ops = g.ops ++ pre ∧
+      pre.filterMap toFOp <+: writeResultOps fs (reqOf ext query o final) ∧
+      (e = none → pre.filterMap toFOp = writeResultOps fs (reqOf ext query o final)) := by
+  obtain ⟨⟨g', e⟩, hr, pre, hp1, hp2, hp3⟩ := WriteResult_any ext g query o ho final
+  rw [full_is_model ext fs hstat query o ho final hrows] at hp2 hp3
+  refine ⟨g', e, pre, hr, hp1, ?_, ?_⟩
+  · have := List.IsPrefix.filterMap toFOp hp2
+    rwa [filterMap_clean, filterMap_of] at this
+  · intro he
+    have := congrArg (List.filterMap toFOp) (hp3 he)
+    rwa [filterMap_clean, filterMap_of] at this
+
 end Dtail.GenOutfile
